@@ -158,7 +158,10 @@ def _is_bufs_val(t):
     return t.op == "proj" and t.args[1][0] == "f" and t.args[1][2] == "bufs"
 
 
-def rule_cache_protocol(F, rep, rule="cache-protocol"):
+def rule_cache_protocol(F, rep, rule="cache-protocol", keys="exact"):
+    """who may touch the cache map; and its keys: keys="exact" requires (range.start, range.end) of the request at every site (needed
+    for equivalence with the slice parser, C07); keys="consistent" only requires the three sites to use the same function of the request
+    (enough for get_bytes to find what load_bytes stored, C08); keys=None does not look at keys (C17)"""
     calls = bufs_calls(F)
     key_of = {}
     writers = {}
@@ -183,6 +186,7 @@ def rule_cache_protocol(F, rep, rule="cache-protocol"):
             return
     p2 = T.param(2)
     want_key = T.agg("tuple", None, 0, None, [T.proj(p2, ("f", 0, "start")), T.proj(p2, ("f", 1, "end"))])
+    key_terms = []
     for fn, an, cs in calls:
         name = cs.declared_norm.split("::")[-1]
         if name in ("contains_key", "get"):
@@ -195,8 +199,13 @@ def rule_cache_protocol(F, rep, rule="cache-protocol"):
             k = cs.args[1]
         else:
             continue
-        rep.require(k is want_key, rule, "key@%s.%s" % (fn["qual"].split("::")[-1], name), cs.where(), "key = (range.start, range.end)",
-                    "cache key at bufs.%s in %s is %s, not (range.start, range.end) of the request" % (name, fn["qual"], pp(k)))
+        key_terms.append(k)
+        if keys == "exact":
+            rep.require(k is want_key, rule, "key@%s.%s" % (fn["qual"].split("::")[-1], name), cs.where(), "key = (range.start, range.end)",
+                        "cache key at bufs.%s in %s is %s, not (range.start, range.end) of the request" % (name, fn["qual"], pp(k)))
+    if keys == "consistent":
+        rep.require(len(set(key_terms)) == 1 and len(key_terms) >= 3, rule, "key-consistency", "src/elf_stream.rs", "contains_key / insert / get use the same key",
+                    "the cache is written and read under different keys %s: get_bytes may not find what load_bytes stored" % sorted({pp(k) for k in key_terms}))
     # clear_cache is only called while opening
     for fn in stream_fns(F):
         an = analyze_fn(F, fn)
